@@ -215,9 +215,14 @@ func uncastProbe() string {
 
 // seqJsonProbe: what attribute prefix / case folding must not affect.
 func seqJsonProbe() string {
-	doc := []byte(`<Doc A-b="1"><Item ID="1">x</Item></Doc>`)
+	// (element names that begin with what an attribute prefix may be: the sequence codec keeps
+	// attributes under its own key and has no notion of a prefix)
+	doc := []byte(`<Doc A-b="1"><Item ID="1">x</Item><_id>u</_id><attr_x at="1">v</attr_x><A_y/><__z>w</__z><a-b>h</a-b></Doc>`)
 	ms, _ := mxj.NewMapXmlSeq(doc)
 	xs, _ := ms.Xml()
+	if xi, err := ms.XmlIndent("", " "); err == nil {
+		xs = append(xs, xi...)
+	}
 	mj, _ := mxj.NewMapJson([]byte(`{"A":{"-K":"v"}}`))
 	j, _ := mj.Json()
 	return enc(map[string]interface{}(ms)) + "\x1f" + string(xs) + "\x1f" + string(j)
